@@ -161,6 +161,9 @@ func buildGenesis(gs GenesisSpec) (*fsm.GenesisState, []crypto.PrivateKeyI, []cr
 
 func newNodeFromGenesis(g *fsm.GenesisState, vk, ak []crypto.PrivateKeyI, names map[string]string, self int, dir string) (*node, error) {
 	log := lib.NewNullLogger()
+	if os.Getenv("NODEX_LOG") != "" {
+		log = lib.NewDefaultLogger()
+	}
 	cfg := lib.DefaultConfig()
 	cfg.DataDirPath = dir
 	cfg.ChainId = 1
@@ -184,6 +187,7 @@ func newNodeFromGenesis(g *fsm.GenesisState, vk, ak []crypto.PrivateKeyI, names 
 		return nil, err
 	}
 	c.RCManager = &rcm{c: c}
+	_ = c.Mempool.CheckMempool() // as Controller.Start() does: initialises the mempool's proposal cache and cancel function
 	return &node{c: c, st: db.(*store.Store), dir: dir, valKeys: vk, accKeys: ak, names: names, gen: g, cfg: cfg}, nil
 }
 
